@@ -43,6 +43,10 @@ def plan(tier, seed):
     for ph, L in itertools.product(PHSP[:3], (0, 1, 2, 3)):
         cases.append({"cls": "reduction", "phsp": ph, "L": L, "cost": 2})
     cases.append({"cls": "reduction_nonrel", "cost": 1})
+    # phase-space factors given as plain callables (the protocol is 'callable (s, m_a, m_b) -> Expr'): look-alike lambdas /
+    # closures used one after the other in one process
+    for c in (1, 2):
+        cases.append({"cls": "callable_phsp", "n_ch": c, "n_poles": 2, "cost": 8.0})
     # call histories inside one process (formulate() caches its matrix templates per n_channels): every call of a
     # sequence with the same n_channels and varying n_poles / arguments is judged by the same post-conditions
     seqs = [[1, 2, 1], [2, 1, 3], [3, 1], [1, 3, 2, 1]]
@@ -115,6 +119,7 @@ def _scan(rec, F, phsp, L, radius, feats):
     from ampform.dynamics import phasespace as P
     phsp_classes = tuple(getattr(P, n) for n in PHSP)
     seen_phsp, bad_L, bad_d, seen_attr = set(), [], [], set()
+    foreign_objects = 0
     n_ff = n_edw = 0
     for elem in F:
         for node in sp.preorder_traversal(elem):
@@ -123,6 +128,7 @@ def _scan(rec, F, phsp, L, radius, feats):
             if isinstance(node, D.EnergyDependentWidth):
                 n_edw += 1
                 seen_attr.add(getattr(node.phsp_factor, "__name__", str(node.phsp_factor)))
+                foreign_objects += node.phsp_factor is not phsp
                 if node.angular_momentum != L:
                     bad_L.append(("EnergyDependentWidth", node.angular_momentum))
                 if node.meson_radius != radius:
@@ -134,6 +140,13 @@ def _scan(rec, F, phsp, L, radius, feats):
                 if node.meson_radius != radius:
                     bad_d.append(("FormFactor", node.meson_radius))
     want = phsp.__name__
+    import inspect
+    if not inspect.isclass(phsp):
+        # a plain callable: what it returns is its own business (rho nodes are not classified); every width must carry
+        # *this* function object
+        rec.check(foreign_objects == 0, "foreign_phase_space_factor",
+                  f"the callable {want} was passed as phsp_factor but {foreign_objects} of {n_edw} energy-dependent widths carry another object", None, feats)
+        seen_phsp, seen_attr = set(), set()
     rec.check(seen_phsp <= {want} and seen_attr <= {want}, "foreign_phase_space_factor",
               f"phase-space factor {want} was passed but the result contains {sorted(seen_phsp | seen_attr)} (rho nodes: {sorted(seen_phsp)}; inside widths: {sorted(seen_attr)})",
               {"passed": want, "rho_nodes": sorted(seen_phsp), "width_attributes": sorted(seen_attr)}, feats)
@@ -211,6 +224,20 @@ def run_case(case, rec, ctx):
     from vmon.refmodel.kmatrix import eval_matrix, random_env, symbols
     K = ctx["K"]
     rng = ctx["case_rng"] = np.random.default_rng([ctx["seed"], 10, case["idx"]])
+    if case["cls"] == "callable_phsp":
+        rec.case(("callable_phsp", case["n_ch"]), True, cls="callable_phsp", n_channels=case["n_ch"])
+        fns = [lambda s_, ma, mb: D.PhaseSpaceFactor(s_, ma, mb) / 2, lambda s_, ma, mb: D.PhaseSpaceFactorSWave(s_, ma, mb) / 2]
+
+        def factory(p_):
+            def rho(s_, ma, mb):
+                return D.PhaseSpaceFactorAbs(s_, ma, mb) ** p_
+            return rho
+        fns += [factory(1), factory(2)]
+        for j, fn in enumerate(fns):
+            ctx["history_position"] = j
+            K.RelativisticPVector.formulate(case["n_ch"], case["n_poles"], return_f_hat=bool(j % 2), phsp_factor=fn, angular_momentum=1, meson_radius=1.3)
+        ctx["history_position"] = None
+        return
     if case["cls"] == "history":
         rec.case(("history", case["klass"], case["n_ch"], tuple(case["seq"])), True, cls="history:" + case["klass"], n_channels=case["n_ch"])
         for j, n_poles in enumerate(case["seq"]):
